@@ -41,6 +41,19 @@ def scenarios(ctx):
         out.append({"name": "old=%s new=%s %s limit=%d style=%d piece=%d" % (a, b, c.name(), lim, style, piece),
                     "a": files[(a, c.name())] if a is not None else None, "b": files[(b, c.name())], "limit": lim, "style": style,
                     "piece": piece, "depth": depth})
+    # scale-dependent shape: chunks larger than one and two of the scan's 32 KiB buffers whose content repeats with a period
+    # dividing the buffer size - a restart that goes on hashing after a short read finds in its buffer exactly what the file
+    # would have held.  Kill points: around every 4 KiB step of every write (and both ends), not every byte.
+    ramp = bytes(range(256))
+    bigp = [b"\xff" * 70000, (ramp * 200)[:40000], b"tail" * 25, bytes(32768 + 4096)]
+    for comp, lim, style, piece, a_pcs in ((0, -1, 0, 0, None), (0, -1, 1, 16384, [bigp[1]]), (2, 1, 0, 16384, None)):
+        if ctx.tier == "quick" and comp == 2:
+            continue
+        pcs = bigp if comp == 0 else [core.prng_bytes(70000, 5 + ctx.seed), core.prng_bytes(40000, 6 + ctx.seed), b"tail" * 25]
+        fb = zckref.build_file(pcs, comp=comp, htype=1, ctype=3, level=3)[0]
+        fa = zckref.build_file(a_pcs, comp=comp, htype=1, ctype=3, level=3)[0] if a_pcs else None
+        out.append({"name": "big-periodic old=%s comp=%d limit=%d style=%d piece=%d" % ("one-chunk" if fa else None, comp, lim, style, piece),
+                    "a": fa, "b": fb, "limit": lim, "style": style, "piece": piece, "depth": 1, "kills": "steps"})
     return out
 
 
@@ -51,19 +64,21 @@ def run_batch(arg):
     for init, plan in items:
         job.append("case init=%s limit=%d style=%d piece=%d %s" % (init.hex() or "-", sc["limit"], sc["style"], sc["piece"],
                                                                    ("plan=%s" % plan) if plan else "trace=1"))
-    cs = core.drv("update", "\n".join(job) + "\n", timeout=3000)
+    cs = core.drv("update", "\n".join(job) + "\n", timeout=3000, env_extra={"VF_BLOB_MAX": "100000000"} if sc.get("kills") else None)
     return [(c.first("U"), c.status(), c.done) for c in cs]
 
 
-def kill_plans(trace):
-    """every crash point of a traced run: (plan string, description)"""
+def kill_plans(trace, mode=None):
+    """every crash point of a traced run (mode "steps": within a write both ends and -1/0/+1 around every 4 KiB step)"""
     out = []
     for rec in trace.split(","):
         k, op, role, req, resv, dev = rec.split(":")
         if role != "g" or k == "-1":
             continue
         if op == "w":
-            for j in range(0, int(req) + 1):
+            n = int(req)
+            js = range(0, n + 1) if mode != "steps" or n <= 600 else sorted({j for m in list(range(0, n + 1, 4096)) + [n] for j in (m - 1, m, m + 1) if 0 <= j <= n})
+            for j in js:
                 out.append("%s:K:%d" % (k, j))
         elif op == "t":
             out.append("%s:K:0" % k)
@@ -113,7 +128,7 @@ def explore(ctx, sc):
             break
         # resume every new state to completion (traced)
         res = []
-        for part in core.pmap(run_batch, [(sc, [(s, None) for s in ch]) for ch in core.chunks(frontier, 40)]):
+        for part in core.pmap(run_batch, [(sc, [(s, None) for s in ch]) for ch in core.chunks(frontier, 4 if sc.get("kills") else 40)]):
             res += part
         nxt_items = []
         for state, (u, status, done) in zip(frontier, res):
@@ -138,13 +153,13 @@ def explore(ctx, sc):
                     sc["name"], len(state), where, depth, v[1]), case))
                 continue
             if depth < sc["depth"]:
-                for plan in kill_plans(u["trace"]):
+                for plan in kill_plans(u["trace"], sc.get("kills")):
                     nxt_items.append((state, plan))
         if depth >= sc["depth"]:
             break
         frontier = []
         flat = []
-        for part in core.pmap(run_batch, [(sc, ch) for ch in core.chunks(nxt_items, 200)]):
+        for part in core.pmap(run_batch, [(sc, ch) for ch in core.chunks(nxt_items, 8 if sc.get("kills") else 200)]):
             flat += part
         for (u, status, done), (state, plan) in zip(flat, nxt_items):
             st["trans"] += 1
@@ -167,7 +182,8 @@ def explore(ctx, sc):
 def run(ctx):
     scs = scenarios(ctx)
     ctx.bounds = {"scenarios": [s["name"] + " depth=%d" % s["depth"] for s in scs],
-                  "crash_points": "every write/ftruncate on the target and every byte count within each write"}
+                  "crash_points": "every write/ftruncate on the target and every byte count within each write (big-periodic scenarios: "
+                                  "both ends of each write and -1/0/+1 around every 4 KiB step)"}
     ctx.rule = ("state = target bytes after a kill (deduplicated); transition = one killed or resumed update execution; "
                 "non-trivial = states in which the kill fell inside the header or inside a chunk")
     for sc in scs:
@@ -185,7 +201,7 @@ def run(ctx):
 
 def replay(case, quiet=True):
     sc = {"name": case["scenario"], "a": bytes.fromhex(case["a"]) if case["a"] else None, "b": bytes.fromhex(case["b"]), "limit": case["limit"],
-          "style": case["style"], "piece": case["piece"]}
+          "style": case["style"], "piece": case["piece"], "kills": "steps" if case["scenario"].startswith("big-") else None}
     state = bytes.fromhex(case["state"])
     if case.get("killcase"):
         (u, status, done), = run_batch((sc, [(state, case["plan"])]))
